@@ -95,6 +95,17 @@ from . import ser_family  # noqa: E402
 CHECKS['C14'] = {'run': ser_family.run_c14, 'signatures': ser_family.SIGNATURES, 'search': None}
 
 
+from . import alias_family  # noqa: E402
+
+CHECKS['C13'] = {'run': alias_family.run_c13, 'signatures': {}, 'search': None}
+
+
+from . import io_family  # noqa: E402
+
+CHECKS['C18'] = {'run': io_family.run_c18, 'signatures': {}, 'search': None}
+CHECKS['C19'] = {'run': io_family.run_c19, 'signatures': {}, 'search': None}
+
+
 def run_check(pid, tier, seed):
     chk = CHECKS[pid]
     return core.decide(pid, tier, seed, chk['run'], signatures=chk.get('signatures'),
@@ -123,4 +134,4 @@ def replay(payload):
     return handler(pid, fl)
 
 
-REPLAYERS = {'roundtrip': ser_family.replay, 'elements': elem_family.replay, 'classify': class_family.replay, 'classify-bytes': class_family.replay, 'access': access_family.replay, 'collection': coll_family.replay, 'collection-perm': coll_family.replay, 'validate': coll_family.replay}
+REPLAYERS = {'sources': io_family.replay_c18, 'sources-bytes': io_family.replay_c18, 'listing': io_family.replay_c18, 'collection-sources': io_family.replay_c18, 'cli': io_family.replay_c19, 'alias-history': alias_family.replay, 'alias-targeted': alias_family.replay, 'roundtrip': ser_family.replay, 'elements': elem_family.replay, 'classify': class_family.replay, 'classify-bytes': class_family.replay, 'access': access_family.replay, 'collection': coll_family.replay, 'collection-perm': coll_family.replay, 'validate': coll_family.replay}
